@@ -98,6 +98,13 @@ structure RouteDecl where
   deprecated : Option (Option (String × Int)) := none
   deriving DecidableEq, Repr, Inhabited
 
+/-- `patch struct S` / `patch union U` / `patch union_closed U`: members to be added to a type declared elsewhere -/
+structure PatchDecl where
+  name : String
+  kind : TypeKind
+  fields : List AField := []
+  deriving DecidableEq, Repr, Inhabited
+
 inductive Decl where
   | type (d : TypeDecl)
   | alias (name : String) (ref : TRef)
@@ -105,6 +112,7 @@ inductive Decl where
   | imp (target : String)
   | annot (name : String)
   | annotType (name : String)
+  | patch (p : PatchDecl)
   deriving DecidableEq, Repr, Inhabited
 
 structure File where
@@ -168,6 +176,8 @@ structure Api where
 inductive Err where
   -- registration
   | symbolDefined | routeVersionDefined | nameConflict | builtinAnnotation
+  -- `_merge_patches`
+  | patchNoTarget | patchMismatch | patchFieldClash
   -- imports
   | importSelf | importUndefined | importCircular
   -- `_resolve_type`
@@ -259,6 +269,7 @@ def regDecl (st : RegSt) (ns : String) : Decl → Except Err RegSt
       if Tables.feBuiltinAnnotations.contains name then .error .builtinAnnotation
       else checkCanon { st with items := ((ns, name), .other) :: st.items } .annotationType name ns false
   | .imp _ => .ok st
+  | .patch _ => .ok st          -- kept in `_patch_data_by_canonical_name` for later
   | .route r =>
     match lookupSym st.items ns r.name with
     | some (.item (.routes vs)) =>
@@ -1000,12 +1011,76 @@ def compileEnv (rx : String → Bool) (E : Env) : Except Err Api :=
           | .error e => .error e
           | .ok nss => .ok { nss := nss }
 
-/-- `IRGenerator(partial_asts).generate_IR()` restricted to the type graph; `rx` = does `re.compile` accept the
-pattern (external) -/
-def compile (rx : String → Bool) (fs : List File) : Except Err Api :=
+/-- passes 1 - 6 on files without patches (what `generate_IR` does once the patches are merged into the declarations);
+`rx` = does `re.compile` accept the pattern (external) -/
+def compileCore (rx : String → Bool) (fs : List File) : Except Err Api :=
   match buildEnv fs with
   | .error e => .error e
   | .ok E => compileEnv rx E
+
+def allPairs (fs : List File) : List (String × Decl) := fs.flatMap fun f => f.decls.map fun d => (f.ns, d)
+
+/-! ## Patches: `_merge_patches`
+
+`patch struct S` adds members to the declaration stored under the canonical name of `S` in `_item_by_canonical_name`.
+After a successful registration that dictionary holds, under every key, the namespace node (a definition may not be
+named like its namespace) or the first definition registered under that canonical name; the model reads it off the
+environment (`itemAt`).  The patched AST nodes are the ones the forward references hold: the model re-reads the
+environment from the merged files (`mergeFiles`) and runs the remaining passes on them.  Patches are taken in the
+order of files and declarations (the code groups them by canonical name first: the same verdict, possibly another
+error when several patches are wrong).  Examples of patches are not modelled. -/
+
+def canonKey (name ns : String) : FeNames.Name := FeNames.key name.toList ns.toList
+
+/-- what `_item_by_canonical_name` holds under `K`, when it is a definition -/
+def itemAt (items : List (Key × Item)) (K : FeNames.Name) : Option (Key × Item) :=
+  items.find? fun p => canonKey p.1.2 p.1.1 == K
+
+def patchOf : String × Decl → Option (String × PatchDecl)
+  | (ns, .patch p) => some (ns, p)
+  | _ => none
+
+def patchesOf (fs : List File) : List (String × PatchDecl) := (allPairs fs).filterMap patchOf
+
+/-- one iteration of the loop of `_merge_patches`; `acc` = (canonical name, member name) of the members added so far -/
+def checkPatch (E : Env) (acc : List (FeNames.Name × String)) (ns : String) (p : PatchDecl) :
+    Except Err (List (FeNames.Name × String)) :=
+  let K := canonKey p.name ns
+  if E.nss.any (fun m => canonKey m m == K) then .error .patchMismatch      -- the namespace node
+  else match itemAt E.items K with
+    | none => .error .patchNoTarget
+    | some (_, .type d) =>
+      if d.kind != p.kind then .error .patchMismatch
+      else if p.fields.any (fun f => (d.fields.map (·.name)).contains f.name || acc.contains (K, f.name)) then
+        .error .patchFieldClash
+      else .ok (p.fields.map (fun f => (K, f.name)) ++ acc)
+    | some _ => .error .patchMismatch
+
+def checkPatches (E : Env) (acc : List (FeNames.Name × String)) : List (String × PatchDecl) → Except Err Unit
+  | [] => .ok ()
+  | (ns, p) :: ps => match checkPatch E acc ns p with
+    | .error e => .error e
+    | .ok acc' => checkPatches E acc' ps
+
+/-- the members all patches add to the declaration with canonical name `K`, in the order of files and declarations -/
+def patchFieldsFor (fs : List File) (K : FeNames.Name) : List AField :=
+  (patchesOf fs).flatMap fun q => if canonKey q.2.name q.1 == K then q.2.fields else []
+
+def mergeDecl (fs : List File) (ns : String) : Decl → Decl
+  | .type d => .type { d with fields := d.fields ++ patchFieldsFor fs (canonKey d.name ns) }
+  | d => d
+
+/-- the declarations with the members of their patches appended -/
+def mergeFiles (fs : List File) : List File :=
+  fs.map fun f => { f with decls := f.decls.map (mergeDecl fs f.ns) }
+
+/-- `IRGenerator(partial_asts).generate_IR()` restricted to the type graph -/
+def compile (rx : String → Bool) (fs : List File) : Except Err Api :=
+  match buildEnv fs with
+  | .error e => .error e
+  | .ok E => match checkPatches E [] (patchesOf fs) with
+    | .error e => .error e
+    | .ok () => compileCore rx (mergeFiles fs)
 
 /-! ## Views of the Api used by the statements -/
 
@@ -1182,7 +1257,7 @@ def denoteNs (rx : String → Bool) (fs : List File) (ns : String) : Option NsOu
   | _, _, _, _ => none
 
 /-- the Api a set of spec files denotes (`none`: some reference has no meaning) -/
-def denote (rx : String → Bool) (fs : List File) : Option Api :=
+def denoteCore (rx : String → Bool) (fs : List File) : Option Api :=
   (optMapM (denoteNs rx fs) (nsNames fs [])).map fun nss => { nss := nss }
 
 /-! ## Specification level: which inputs are legal
@@ -1216,8 +1291,6 @@ def isOk {ε α} : Except ε α → Bool
   | .ok _ => true
   | .error _ => false
 
-def allPairs (fs : List File) : List (String × Decl) := fs.flatMap fun f => f.decls.map fun d => (f.ns, d)
-
 def declItem : Decl → Option FeNames.Item
   | .type d => some { kind := .type, name := d.name.toList }
   | .alias n _ => some { kind := .alias, name := n.toList }
@@ -1225,6 +1298,7 @@ def declItem : Decl → Option FeNames.Item
   | .annot n => some { kind := .annotation, name := n.toList }
   | .annotType n => some { kind := .annotationType, name := n.toList }
   | .imp _ => none
+  | .patch _ => none
 
 /-- the files as the name rules of C01 see them -/
 def toNames (fs : List File) : List FeNames.File :=
@@ -1255,6 +1329,7 @@ def anyName : Decl → Option String
   | .annot n => some n
   | .annotType n => some n
   | .imp _ => none
+  | .patch _ => none
 
 /-- `name` means something in namespace `ns`: an imported namespace, a definition, a built-in type -/
 def known (fs : List File) (ns name : String) : Bool :=
@@ -1432,7 +1507,47 @@ def declLegal (rx : String → Bool) (fs : List File) (ns : String) : Decl → B
   | _ => true
 
 /-- the set of spec files obeys every rule -/
-def Legal (rx : String → Bool) (fs : List File) : Bool :=
+def LegalCore (rx : String → Bool) (fs : List File) : Bool :=
   namesLegal fs && importsLegal fs && (allPairs fs).all fun p => declLegal rx fs p.1 p.2
+
+/-! ## Patches at the specification level; the whole language -/
+
+/-- the definition with canonical name `K` (the name rules leave at most one that is not a route; the last one is
+taken) -/
+def namedPred (K : FeNames.Name) (q : String × Decl) : Bool :=
+  match anyName q.2 with
+  | some n => canonKey n q.1 == K
+  | none => false
+
+def namedAt (fs : List File) (K : FeNames.Name) : Option (String × Decl) :=
+  (allPairs fs).reverse.find? (namedPred K)
+
+/-- the patch `p` written in namespace `ns` names a struct / union of its kind and adds no member the declaration
+already has -/
+def patchStatic (fs : List File) (ns : String) (p : PatchDecl) : Bool :=
+  !(nsNames fs []).any (fun m => canonKey m m == canonKey p.name ns) &&
+    match namedAt fs (canonKey p.name ns) with
+    | some (_, .type d) => d.kind == p.kind && !(p.fields.any fun f => (d.fields.map (·.name)).contains f.name)
+    | _ => false
+
+/-- two patches of one type add no member of the same name -/
+def patchesDisjoint (a b : String × PatchDecl) : Bool :=
+  !(canonKey a.2.name a.1 == canonKey b.2.name b.1 &&
+    a.2.fields.any fun f => (b.2.fields.map (·.name)).contains f.name)
+
+def pairwiseB {α} (r : α → α → Bool) : List α → Bool
+  | [] => true
+  | x :: xs => xs.all (r x) && pairwiseB r xs
+
+/-- the rules for patches: the patched type exists, is of the same kind (struct / union / union_closed), no member
+of the patch is a declared member of the type or a member of another patch of it -/
+def patchesLegal (fs : List File) : Bool :=
+  (patchesOf fs).all (fun q => patchStatic fs q.1 q.2) && pairwiseB patchesDisjoint (patchesOf fs)
+
+/-- what the spec files denote: the declarations with their patches merged -/
+def denote (rx : String → Bool) (fs : List File) : Option Api := denoteCore rx (mergeFiles fs)
+
+/-- the set of spec files obeys every rule -/
+def Legal (rx : String → Bool) (fs : List File) : Bool := patchesLegal fs && LegalCore rx (mergeFiles fs)
 
 end StoneVerif.FeCompile
